@@ -168,6 +168,8 @@ func buildLedger(c *xs.Ctx, b *builder) {
 		}
 	}
 	b.send(u2, u6, types.QsrTokenStandard, 9)
+	// a zero-amount send naming a token standard nobody ever issued (accepted by the node: nothing is moved)
+	b.send(u5, u2, types.NewZenonTokenStandard([]byte("a token nobody ever issued")), 0)
 	b.Ms(2)
 	// unconfirmed blocks stay in the pool: 3 of User1 (one of them receives nothing new: plain sends), 2 of User4
 	b.send(u1, u2, types.ZnnTokenStandard, 1)
